@@ -203,6 +203,14 @@ void harness(void)
       memcpy(o.ctx, nd, CTX_SIZE);
 #endif
     }
+    /* representation invariants of a live context: a round count and an offset the API can produce */
+#if CIPHER == 3
+    ASSUME(((MantisKey_t *)o.ctx)->rounds <= MAXR);
+#elif CIPHER == 1
+    ASSUME(((Skinny128Key_t *)o.ctx)->rounds <= MAXR);
+#else
+    ASSUME(((Skinny64Key_t *)o.ctx)->rounds <= MAXR);
+#endif
     op_cleanup(&o);
     CHECK(n_live == 0 && n_badfree == 0, "the context is released exactly once");
     CHECK(n_dirty == 0, "every byte of the context (round keys, tweak, counters, buffered keystream, slack) is zero before free");
